@@ -17,7 +17,7 @@ import json, os, itertools
 from fractions import Fraction as Fr
 from core import *
 
-NEEDS = ["Replace", "ReplaceProofs", "Yaml", "YamlProofs", "Corr"]
+NEEDS = ["Replace", "ReplaceProofs", "Yaml", "YamlProofs", "Corr", "PyLib", "ReplaceEquiv", "Gen_replace"]
 ALPHA = "ra_2+= ("
 TERMS = ["r", "rr", "r_a", "a"]      # r_in of the design cannot occur over ALPHA (no i, n): r_a plays its role
 FLAGS = [(False, False), (True, False), (False, True), (True, True)]
@@ -240,7 +240,9 @@ def read_store(path):
         if b == "OperatorTemplate":
             out.append([key, "op", list(e["equations"]), [[v, *spec8(s)] for v, s in e["variables"].items()]])
         elif b in ("NodeTemplate", "EdgeTemplate"):
-            out.append([key, "edge" if b == "EdgeTemplate" else "node", list(e["operators"])])
+            o = e["operators"]          # a list of operator keys, or {operator key: {variable: value}}
+            ops = [[k, [[v, val8(x)] for v, x in (u or {}).items()]] for k, u in o.items()] if isinstance(o, dict) else [[k, []] for k in o]
+            out.append([key, "edge" if b == "EdgeTemplate" else "node", ops])
         else:
             out.append([key, "circ", [[k, v] for k, v in e["circuits"].items()], [[k, v] for k, v in e["nodes"].items()],
                         [[s, t, tp, [[k, val8(v)] for k, v in at.items()]] for s, t, tp, at in e["edges"]]])
@@ -550,6 +552,7 @@ Definition yamlRT (p : circ * store * den * option den) := let '(c, st, d0, d1) 
 Definition gWF (p : circ * store * den * option den) := let '(c, st, d0, d1) := p in dicts_wf c.
 Definition gRen (p : circ * store * den * option den) := let '(c, st, d0, d1) := p in no_rename c.
 Definition gVar (p : circ * store * den * option den) := let '(c, st, d0, d1) := p in variants_le2 c.
+Definition gCrit (p : circ * store * den * option den) := let '(c, st, d0, d1) := p in no_critical_rename c.
 Definition gKind (p : circ * store * den * option den) := let '(c, st, d0, d1) := p in const_overrides c.
 Definition gPar (p : circ * store * den * option den) := let '(c, st, d0, d1) := p in no_parallel_tpl_edges c.
 """
@@ -636,7 +639,8 @@ def c_store(st):
         if e[1] == "op":
             out.append(f"({cs(e[0])}, EOp {csl(e[2])} {clist([f'({cs(v)}, {cspec(k, x)})' for v, k, x in e[3]])})")
         elif e[1] in ("node", "edge"):
-            out.append(f"({cs(e[0])}, ENode {cbool(e[1] == 'edge')} {csl(e[2])})")
+            ops = clist([f"({cs(k)}, ({c_attrs(u)} : upd))" for k, u in e[2]])
+            out.append(f"({cs(e[0])}, ENode {cbool(e[1] == 'edge')} {ops})")
         else:
             kv = lambda l: clist([f"({cs(k)}, {cs(v)})" for k, v in l])
             es = clist([f"({cs(s)}, {cs(t)}, {'(@None str)' if tp is None else '(Some ' + cs(tp) + ')'}, {c_attrs(at)})" for s, t, tp, at in e[4]])
@@ -715,6 +719,7 @@ def check(ctx):
         outs[i] = r
     crashed = [i for i, r in enumerate(outs) if isinstance(r, dict) and "err" in r]
     bad_spec, bad_impl, gv = [], [], {}
+    exercised = {}
     stats = dict(exhaustive_real_calls=0, exhaustive_coq_evaluations=0, sided_flag_mismatches_on_exhaustive_space=0)
     # ---- exh
     from concurrent.futures import ThreadPoolExecutor
@@ -767,18 +772,14 @@ def check(ctx):
     idx = [i for i, c in enumerate(cases) if c["kind"] == "yaml" and i not in crashed]
     if idx:
         items = [coq_yaml(cases[i], outs[i]) for i in idx]
-        bSt, bD0, bD1, rt, gW, gR, gV, gK, gP = eval_lists(ctx, "yaml", "circ * store * den * option den", ["yamlStore", "yamlDen0", "yamlDen1", "yamlRT", "gWF", "gRen", "gVar", "gKind", "gPar"], items, 40)
+        bSt, bD0, bD1, rt, gW, gR, gV, gK, gP, gC = eval_lists(ctx, "yaml", "circ * store * den * option den", ["yamlStore", "yamlDen0", "yamlDen1", "yamlRT", "gWF", "gRen", "gVar", "gKind", "gPar", "gCrit"], items, 40)
         assert not gW, "generator produced a dictionary with duplicate keys"
         for k in set(bSt) | set(bD0) | set(bD1):
             bad_impl.append(idx[k])
-        for k in gV:
-            gv.setdefault(idx[k], []).append("variants_le2")
-        for k in gR:
-            gv.setdefault(idx[k], []).append("no_rename")
-        for k in gK:
-            gv.setdefault(idx[k], []).append("const_overrides")
-        for k in gP:
-            gv.setdefault(idx[k], []).append("no_parallel_tpl_edges")
+        for k in gC:                            # the only guard with a listed finding
+            gv.setdefault(idx[k], []).append("no_critical_rename")
+        # classes of former findings (repaired by D66, D67, D53, D68), still generated; counted for the evidence only
+        exercised = dict(three_or_more_variants=len(gV), some_template_renamed=len(gR), override_of_non_constant=len(gK), parallel_template_edges=len(gP))
         model_rt_bad = set(rt)
         for k, i in enumerate(idx):
             ok = yaml_spec_ok(outs[i])
@@ -849,7 +850,8 @@ def check(ctx):
                                    "Python transcriptions of Replace.replace_words / Replace.loopA; the transcriptions are tied to the Coq model only through the "
                                    "smaller space, where model = real = transcription."),
                               impl_vs_model_mismatches=len(bad_impl), impl_vs_spec_mismatches=len(bad_spec),
-                              outside_guards={g: sum(1 for v in gv.values() if g in v) for g in ("variants_le2", "no_rename", "const_overrides", "no_parallel_tpl_edges")}),
+                              outside_guards={"no_critical_rename": sum(1 for v in gv.values() if "no_critical_rename" in v)},
+                              former_finding_classes_exercised=exercised),
                    trusted_base=["numpy float64 arithmetic is exact on the generated dyadic data (vector fields are compared as exact rationals)",
                                  "harness reading of template objects (walk), of the written YAML file (read_store, ruamel safe loader) and of variable "
                                  "definitions (PyRates' own _parse_defaults)",
